@@ -1,6 +1,7 @@
 ------------------------ MODULE MC_MassMatrixGauss ------------------------
 EXTENDS MassMatrixGauss
-ExpsQuick == {<<0>>, <<-20, 20>>, <<4, -3, 0>>, <<20, 0, -20>>}
+\* (<<-30>> / <<30>> in 50 dimensions: the product of the scales leaves the range of a double, their logarithms do not)
+ExpsQuick == {<<0>>, <<-20, 20>>, <<4, -3, 0>>, <<20, 0, -20>>, <<-30>>, <<30>>}
 ExpsFull == ExpsQuick \cup {<<-20>>, <<20>>, <<-3, 4>>, <<0, 20, -20, 4, -3>>, <<-20, -20, 20>>}
 \* means as numerator over 2 (so -2049 is -1024.5)
 MusQuick == {<<0>>, <<6, -2049>>, <<0, 0, 1>>}
